@@ -2,15 +2,30 @@
 import json, os, re, collections
 from verifkit import read_lines, sh, REPO, VERIF, CACHE
 
-REQUIRED = [
-    "DaeVerif.C03.Props.parse_path_independent",
-]
+REQUIRED = ["DaeVerif.C03.Props." + n for n in (
+    # both parsers
+    "parse_path_independent", "verdict_parse_path_independent",
+    # LAN ingress, one frame
+    "lan_new_tcp_connection", "lan_new_tcp_map_full", "lan_new_udp_flow", "lan_dns_datagram",
+    "lan_tracked_tcp_follows_cache", "lan_tracked_udp_follows_cache", "lan_untracked_tcp_passes",
+    # WAN egress, one frame
+    "wan_forwarded_passes", "wan_new_tcp_connection", "wan_new_udp_flow", "wan_dns_datagram",
+    "wan_tracked_tcp_follows_cache", "wan_tracked_udp_follows_cache", "wan_untracked_tcp_passes",
+    "dae_udp_never_captured", "dae_tcp_syn_passes_and_clears",
+    # whole runs
+    "sticky_decision", "undecided_tcp_flow_passes", "dae_connection_never_recaptured",
+    "wan_ingress_syn_marks_reverse_tuple", "wan_originated_tcp_replies_pass",
+    "wan_ingress_udp_marks_reverse_tuple", "wan_originated_udp_replies_pass",
+    # the rest
+    "unparsed_frames_not_routed", "ipv4_noninitial_fragment_passes", "idle_timeouts",
+    "conn_state_layout", "handoff_layout", "lookup_key_layout",
+)]
 
 GO_ANSWERED = ("connkey", "hoexp")
 
 
 def streams_for(ctx):
-    return ["c03a", "c03b", "c03c0", "c03c1", "c03c2", "c03c3", "c03p", "c03f"]
+    return ["c03f", "c03p", "c03a", "c03b", "c03c0", "c03c1", "c03c2", "c03c3"]
 
 
 def bpf2go_padding(ctx, fake):
@@ -72,6 +87,16 @@ def run(ctx):
         "translators/fakebpf (synthetic bpf2go declarations so that the production bpf_utils.go compiles)",
         "bpf(2) map create/update/lookup of the sandbox kernel (only used to let the REAL RetrieveRoutingResult read the bytes the TC programs wrote)",
     ]
+    pending = []  # (priority, what, replay, key): property-level findings on the real code first, model diffs after
+
+    seen_kinds = {}
+
+    def queue(prio, what, replay, key=None):
+        kind = what.split("(")[0].split(" at ")[0][:60]
+        seen_kinds[kind] = seen_kinds.get(kind, 0) + 1
+        if seen_kinds[kind] <= 4:  # a handful of replays per kind of disagreement is enough
+            pending.append((prio, len(pending), what, replay, key))
+
     ctx.prove(["DaeVerif.C03.Props"], ["DaeVerif.C03.Props"], ["DaeVerif/C03/*.lean"], extra_targets=["c03drv"])
     ctx.required_theorems(REQUIRED)
 
@@ -111,7 +136,7 @@ def run(ctx):
         ops, cl = read_lines(ops_p), read_lines(c_p) if os.path.exists(c_p) else []
         if rc != 0 or len(cl) != len(ops):
             bad = len(cl) + 1
-            ctx.report(f"native TC driver failed on stream {n} (rc={rc}, {len(cl)}/{len(ops)} answers): sanitizer report or crash inside tproxy.c: {out[-1200:]}",
+            queue(1, f"native TC driver failed on stream {n} (rc={rc}, {len(cl)}/{len(ops)} answers): sanitizer report or crash inside tproxy.c: {out[-1200:]}",
                        {"stream": n, "rc": rc, "output": out[-3000:], "ops": scenario_replay(ops, min(bad, len(ops))), "replay": replay_cmd})
             continue
         ok_streams.append(n)
@@ -138,7 +163,7 @@ def run(ctx):
             continue
         model = read_lines(model_p)
         if not (len(go) == len(cl) == len(rt) == len(ops) == len(model)):
-            ctx.report(f"stream {n}: answer streams have different lengths ops={len(ops)} go={len(go)} c={len(cl)} retr={len(rt)} model={len(model)}",
+            queue(2, f"stream {n}: answer streams have different lengths ops={len(ops)} go={len(go)} c={len(cl)} retr={len(rt)} model={len(model)}",
                        {"stream": n})
             continue
         merged = []
@@ -179,12 +204,12 @@ def run(ctx):
                     "dump": "map contents differ from the model",
                     "connkey": "outboundConnectivityMapKey differs from the slot wan_outbound_is_alive reads in the model",
                     "hoexp": "routingHandoffExpired differs from the model"}.get(kind, "implementation differs from the proved model")
-            ctx.report(f"{what} at {n}:{ln}: impl `{im[:300]}` model `{mo[:300]}`",
+            queue(2, f"{what} at {n}:{ln}: impl `{im[:300]}` model `{mo[:300]}`",
                        {"stream": n, "line": ln, "op": op[:6000], "impl": im[:6000], "model": mo[:6000],
                         "ops": scenario_replay(ops, ln) if ln > 0 else [], "replay": replay_cmd})
         for i, mo in enumerate(model):
             if mo == "bad-op":
-                ctx.report("model driver: bad op (harness-model protocol bug)", {"stream": n, "line": i + 1, "op": ops[i][:2000]})
+                queue(2, "model driver: bad op (harness-model protocol bug)", {"stream": n, "line": i + 1, "op": ops[i][:2000]})
                 break
 
         # ---- constants three-way (Go | C | Lean)
@@ -194,7 +219,7 @@ def run(ctx):
             n_const += 1
             vals = [v[1:] for v in (go[i], cl[i], model[i]) if v[1:] not in ("-", "?")]
             if len(set(vals)) != 1 or len(vals) < 2:
-                ctx.report(f"constant/layout {op[6:]} disagrees: go={go[i][1:]} c={cl[i][1:]} model={model[i][1:]}",
+                queue(1, f"constant/layout {op[6:]} disagrees: go={go[i][1:]} c={cl[i][1:]} model={model[i][1:]}",
                            {"const": op[6:], "go": go[i][1:], "c": cl[i][1:], "model": model[i][1:]})
 
         # ---- property-level oracles on the implementation alone
@@ -208,7 +233,7 @@ def run(ctx):
                 f = fields(cl[i])
                 if "f" in f and "s" in f and "t" in f:
                     if (f["f"] != "-1" and f["f"] != f["s"]) or f["t"] != f["s"]:
-                        ctx.report(f"the two header parsers disagree on the same frame ({n}:{i+1}): fast `{f['f']}` slow `{f['s']}` parse_transport `{f['t']}`",
+                        queue(1, f"the two header parsers disagree on the same frame ({n}:{i+1}): fast `{f['f']}` slow `{f['s']}` parse_transport `{f['t']}`",
                                    {"stream": n, "line": i + 1, "op": op, "impl": cl[i], "replay": replay_cmd})
                     branch["parse.fast=" + f["f"].split(":")[0]] += 1
                     branch["parse.slow=" + f["s"].split(":")[0]] += 1
@@ -227,7 +252,7 @@ def run(ctx):
                 if f.get("pkt") != "=":
                     branch["frame.rewritten"] += 1
                 if "SOCKET-REF-LEAK" in cl[i]:
-                    ctx.report(f"socket reference not released ({n}:{i+1}): {cl[i][:200]}", {"stream": n, "line": i + 1, "op": op})
+                    queue(1, f"socket reference not released ({n}:{i+1}): {cl[i][:200]}", {"stream": n, "line": i + 1, "op": op})
             elif kind == "retr":
                 n_retr += 1
                 branch["retr." + ("found" if rt[i].startswith("rr=") and rt[i][3].isdigit() else rt[i][3:15])] += 1
@@ -246,7 +271,7 @@ def run(ctx):
                 continue
             other = blocks[(sid, "B")]
             if len(other) != len(idxs):
-                ctx.report(f"twin scenario {sid} of {n}: different op counts (generator bug)", {"stream": n, "scenario": sid})
+                queue(2, f"twin scenario {sid} of {n}: different op counts (generator bug)", {"stream": n, "scenario": sid})
                 continue
             for ia, ib in zip(idxs, other):
                 a, b = merged[ia], merged[ib]
@@ -255,7 +280,7 @@ def run(ctx):
                 if "rr=skip-boundary" in (a, b):
                     continue
                 if a != b:
-                    ctx.report(f"verdict depends on the header-parsing path ({n} scenario {sid}): fully linear skb `{a[:200]}` vs `{b[:200]}` for op `{ops[ib][:120]}`",
+                    queue(1, f"verdict depends on the header-parsing path ({n} scenario {sid}): fully linear skb `{a[:200]}` vs `{b[:200]}` for op `{ops[ib][:120]}`",
                                {"stream": n, "scenario": sid, "op_linear": ops[ia][:4000], "op_other": ops[ib][:4000], "impl_linear": a[:4000],
                                 "impl_other": b[:4000], "ops": scenario_replay(ops, ib + 1), "replay": replay_cmd})
                     break
@@ -278,7 +303,7 @@ def run(ctx):
         if len(w) == 2:
             wit["udp-wan-direct-sticky"] = [v(w[0][1]), v(w[1][1])]
             if v(w[0][1]) == "0" and v(w[1][1]) != "0":
-                ctx.report("WAN-egress UDP flow whose first decision was plain direct is re-routed after a rule change: "
+                queue(0, "WAN-egress UDP flow whose first decision was plain direct is re-routed after a rule change: "
                            f"first datagram v={v(w[0][1])}, same flow after the swap v={v(w[1][1])} (expected 0 = follow the first decision)",
                            {"ops": [o for o, _ in w], "impl": [c for _, c in w], "replay": replay_cmd},
                            key="c03-wan-udp-direct-not-sticky")
@@ -286,13 +311,13 @@ def run(ctx):
         if len(w) == 2:
             wit["udp-lan-direct-sticky"] = [v(w[0][1]), v(w[1][1])]
             if v(w[0][1]) != v(w[1][1]):
-                ctx.report(f"LAN-ingress UDP flow does not follow its first decision after a rule change: {v(w[0][1])} then {v(w[1][1])}",
+                queue(0, f"LAN-ingress UDP flow does not follow its first decision after a rule change: {v(w[0][1])} then {v(w[1][1])}",
                            {"ops": [o for o, _ in w], "impl": [c for _, c in w], "replay": replay_cmd})
         w = per.get("dae-tcp-tuple-reuse", [])
         if len(w) == 4:
             wit["dae-tcp-tuple-reuse"] = [v(x[1]) for x in w]
             if v(w[2][1]) != "0" or v(w[3][1]) != "0":
-                ctx.report("packets sent by dae itself are captured again: dae reuses the 5-tuple of a proxied flow whose conn state is live; "
+                queue(0, "packets sent by dae itself are captured again: dae reuses the 5-tuple of a proxied flow whose conn state is live; "
                            f"dae SYN v={v(w[2][1])}, dae ACK v={v(w[3][1])} (expected 0/0)",
                            {"ops": [o for o, _ in w], "impl": [c for _, c in w], "replay": replay_cmd},
                            key="c03-dae-tcp-established-recapture")
@@ -300,10 +325,13 @@ def run(ctx):
         if len(w) == 5:
             wit["synack-parse-paths"] = [w[0][1][:40], v(w[3][1]), v(w[4][1])]
             if v(w[3][1]) != "0" or v(w[4][1]) != "0":
-                ctx.report("the SYN-ACK of a connection opened from the WAN side is not passed untouched: "
+                queue(0, "the SYN-ACK of a connection opened from the WAN side is not passed untouched: "
                            f"fast path v={v(w[3][1])}, byte-load path v={v(w[4][1])}",
                            {"ops": [o for o, _ in w], "impl": [c for _, c in w], "replay": replay_cmd})
         ctx.cov["witnesses"] = wit
+
+    for _, _, what, replay, key in sorted(pending, key=lambda t: (t[0], t[1])):
+        ctx.report(what, replay, key=key)
 
     stats = json.load(open(os.path.join(ctx.out, "c03.stats.json")))
     rstats = json.load(open(os.path.join(ctx.out, "c03retr.stats.json")))
